@@ -54,17 +54,30 @@ fn signing_key(name: &str) -> SigningKey {
 /// payload_size > 0, backlink iff seq_num > 0, as the header encoding requires).  The id string is
 /// mixed into the extension tag so that two descriptors never share a header (forks have the
 /// same author and seq_num).
-fn build_op(id: &str, author: &str, seq: SeqNum, pay: u32, body: bool, pad: usize) -> Op {
+fn build_op(id: &str, author: &str, seq: SeqNum, pay: u32, giga: u32, body: bool, pad: usize) -> Op {
     let key = signing_key(author);
     let seed = Hash::digest(format!("vh-stores body {id}"));
-    let bytes: Vec<u8> = (0..pay as usize).map(|i| seed.as_bytes()[i % 32] ^ (i / 32) as u8).collect();
-    let body_value = Body::new(&bytes);
+    // declared payload size = giga * 2^30 + pay; a body is only ever materialised for small ones
+    let payload_size = ((giga as u64) << 30) + pay as u64;
+    assert!(payload_size <= u32::MAX as u64, "descriptor {id}: payload_size does not fit u32");
+    assert!(!body || giga == 0, "descriptor {id}: huge payloads are header-only");
+    let body_value = if body {
+        let bytes: Vec<u8> = (0..pay as usize).map(|i| seed.as_bytes()[i % 32] ^ (i / 32) as u8).collect();
+        Some(Body::new(&bytes))
+    } else {
+        None
+    };
+    let payload_hash = match (&body_value, payload_size) {
+        (_, 0) => None,
+        (Some(b), _) => Some(b.hash()),
+        (None, _) => Some(Hash::digest(format!("vh-stores absent body {id}"))),
+    };
     let mut header = Header::<Ext> {
         version: 1,
         verifying_key: key.verifying_key(),
         signature: None,
-        payload_size: pay,
-        payload_hash: if pay > 0 { Some(body_value.hash()) } else { None },
+        payload_size: payload_size as u32,
+        payload_hash,
         seq_num: seq,
         backlink: if seq > 0 { Some(Hash::digest(format!("vh-stores backlink {id}"))) } else { None },
         extensions: Ext {
@@ -76,7 +89,7 @@ fn build_op(id: &str, author: &str, seq: SeqNum, pay: u32, body: bool, pad: usiz
     Operation {
         hash: header.hash(),
         header,
-        body: if body { Some(body_value) } else { None },
+        body: body_value,
     }
 }
 
@@ -86,6 +99,7 @@ struct OpInfo {
     author: String,
     seq: SeqNum,
     pay: u32,
+    giga: u32,
     hdr: u32,
 }
 
@@ -329,10 +343,11 @@ impl LineCtx {
             let seq = o["seq"].as_u64().expect("seq") as SeqNum;
             let pay = o["pay"].as_u64().expect("pay") as u32;
             let body = o["body"].as_bool().expect("body");
-            let op = build_op(&id, &author, seq, pay, body, (seq as usize * 3) % 7);
+            let giga = o["giga"].as_u64().unwrap_or(0) as u32;
+            let op = build_op(&id, &author, seq, pay, giga, body, (seq as usize * 3) % 7);
             let hdr = op.header.to_bytes().len() as u32;
             by_hash.insert(op.hash, id.clone());
-            ops.insert(id, OpInfo { op, author, seq, pay, hdr });
+            ops.insert(id, OpInfo { op, author, seq, pay, giga, hdr });
         }
         LineCtx { ops, by_hash }
     }
@@ -579,8 +594,29 @@ fn replay_line(sut: &Sut, line: &Value, tally: &mut Tally) -> Result<(), Fail> {
             let got = soft!(settle("C08", "get_log_entries", sut.call(q_entries(store, &a, &l, opt(af), opt(un)))));
             soft!(check_entries(&got, &ids, &ctx, &body_of)
                 .map_err(|d| fail("C08", "get_log_entries-differs", format!("get_log_entries({an}, {l}, {af}, {un}): {d}"))));
-            let got = soft!(settle("C08", "get_log_size", sut.call(q_size(store, &a, &l, opt(af), opt(un)))));
-            let bytes: u64 = pay + ids.iter().map(|i| ctx.ops[*i].hdr as u64).sum::<u64>();
+            let giga = row[5].as_u64().unwrap_or(0);
+            let bytes: u64 = (giga << 30) + pay + ids.iter().map(|i| ctx.ops[*i].hdr as u64).sum::<u64>();
+            let call = sut.call(q_size(store, &a, &l, opt(af), opt(un)));
+            if bytes > u32::MAX as u64 {
+                // the total has no rendering as (u32, u32): an error is the only acceptable outcome
+                // (spec: SizeOverflows)
+                tally.bump("size-overflow-cases");
+                match call {
+                    Call::Err(_) => {}
+                    Call::Ok(v) => soft!(Err(fail(
+                        "C08",
+                        "get_log_size-overflow-wrong-value",
+                        format!("get_log_size({an}, {l}, {af}, {un}) = {v:?} although the total is {bytes} bytes (> u32::MAX)"),
+                    ))),
+                    Call::Panic(p) => soft!(Err(fail(
+                        "C08",
+                        "get_log_size-overflow-panics",
+                        format!("get_log_size({an}, {l}, {af}, {un}) panicked ({p}); the total is {bytes} bytes (> u32::MAX), the model demands an error"),
+                    ))),
+                }
+                continue;
+            }
+            let got = soft!(settle("C08", "get_log_size", call));
             // None is accepted as a rendering of the zero pair only (spec: SizeAnswerOK)
             let ok = match got {
                 None => n == 0,
@@ -891,6 +927,8 @@ fn record_run(
     let with_ops = what != "collections-only";
     let with_coll = what != "logs";
 
+    let big_sizes = with_ops && rng.chance(1, 3); // a run with header-only operations of huge declared size
+    let mut edge_used = false;
     let mut pool: Vec<RecOp> = Vec::new(); // every operation ever created in this run
     let mut by_hash: BTreeMap<Hash, usize> = BTreeMap::new();
     let mut history: Vec<Value> = Vec::new(); // for the replayable case of a failure
@@ -936,17 +974,29 @@ fn record_run(
                             let seq = if rng.chance(1, 6) { *rng.pick(&BIG_SEQS) } else { rng.below(9) as SeqNum };
                             (touched_author.clone(), seq)
                         };
-                        let (pay, body) = match rng.below(8) {
+                        let (mut pay, mut body) = match rng.below(8) {
                             0 => (0, false),
                             1 => (0, true), // empty body stored with the row
                             2 => (rng.range(1, 40) as u32, false), // payload declared, not present
                             _ => (rng.range(1, 40) as u32, true),
                         };
+                        // header-only operations declaring huge payloads (giga * 2^30 + pay bytes);
+                        // at most one per run comes within a header's length of a 2^30 boundary, so
+                        // that the sub-2^30 remainders of a log always sum to less than 2^31
+                        let mut giga = 0;
+                        if big_sizes && rng.chance(1, 8) {
+                            giga = rng.range(1, 3) as u32;
+                            body = false;
+                            if !edge_used && rng.chance(1, 2) {
+                                edge_used = true;
+                                pay = (1 << 30) - rng.range(1, 400) as u32;
+                            }
+                        }
                         let label = format!("o{}", pool.len());
-                        let op = build_op(&format!("run{run}-{label}"), &author, seq, pay, body, rng.below(30) as usize);
+                        let op = build_op(&format!("run{run}-{label}"), &author, seq, pay, giga, body, rng.below(30) as usize);
                         let hdr = op.header.to_bytes().len() as u32;
                         by_hash.insert(op.hash, pool.len());
-                        pool.push(RecOp { label, info: OpInfo { op, author, seq, pay, hdr }, body });
+                        pool.push(RecOp { label, info: OpInfo { op, author, seq, pay, giga, hdr }, body });
                         pool.len() - 1
                     };
                     let o = &pool[idx];
@@ -959,7 +1009,7 @@ fn record_run(
                     let r = sut.call(in_tx(store, &ask, store.insert_operation(&o.info.op.hash, &o.info.op, &touched_log)));
                     let (ret, _obs) = tryf!(settle("C09", "insert_operation", r));
                     json!({"ev": "InsertOperation", "id": o.label, "a": o.info.author, "l": touched_log, "seq": o.info.seq,
-                           "hdr": o.info.hdr, "pay": o.info.pay, "body": o.body, "ret": ret as u64})
+                           "hdr": o.info.hdr, "pay": o.info.pay, "giga": o.info.giga, "body": o.body, "ret": ret as u64})
                 }
                 12..=14 => {
                     if pool.is_empty() {
@@ -1133,10 +1183,16 @@ fn record_run(
                         qs.push(json!({"k": "entries", "a": an, "l": ln, "af": log_bound(af), "un": log_bound(un),
                                        "none": got.is_none(), "ids": ids, "bodies": bodies}));
                     } else {
-                        let got = tryf!(settle("C08", "get_log_size", sut.call(q_size(store, &a, &ln, af, un))));
+                        // an Err is an answer here: the model demands one when the total exceeds u32
+                        let (err, got) = match sut.call(q_size(store, &a, &ln, af, un)) {
+                            Call::Err(_) => (true, None),
+                            other => (false, tryf!(settle("C08", "get_log_size", other))),
+                        };
                         let (n, bytes) = got.unwrap_or((0, 0));
-                        qs.push(json!({"k": "size", "a": an, "l": ln, "af": log_bound(af), "un": log_bound(un),
-                                       "none": got.is_none(), "n": n, "bytes": bytes}));
+                        // TLC integers are 32 bit: totals >= 2^31 are logged minus 2^31 with high = true
+                        let high = bytes >= 1 << 31;
+                        qs.push(json!({"k": "size", "a": an, "l": ln, "af": log_bound(af), "un": log_bound(un), "err": err,
+                                       "none": !err && got.is_none(), "n": n, "bytes": if high { bytes - (1 << 31) } else { bytes }, "high": high}));
                     }
                 }
                 4 | 5 => {
